@@ -2,15 +2,15 @@
   Driver: reads trace lines on stdin, runs the model on every `op` line and prints one `=> …`
   line per operation.  Core Lean only.
 -/
-import GoatModel.World
+import GoatModel.Driver
 open Goat Goat.Wire
 
-partial def loop (h : IO.FS.Stream) (out : IO.FS.Stream) (s : World.W) : IO Unit := do
+partial def loop (h : IO.FS.Stream) (out : IO.FS.Stream) (s : Driver.D) : IO Unit := do
   let line ← h.getLine
   if line.isEmpty then return ()
   match parseOp line with
   | some o =>
-    let (s', r) := World.step s o
+    let (s', r) := Driver.step s o
     out.putStrLn r
     loop h out s'
   | none => loop h out s
